@@ -333,6 +333,23 @@ def run_large(case, ctx, g):
               "vector %r has %d hops, distance %d" % (v, hops, dist), **where)
         check(((sx + v[0] - v[2]) % w, (sy + v[1] - v[2]) % h) == dst2d,
               "torus-vector-destination", "vector %r" % (v,), **where)
+    # the difference between two neighbouring chips across the seam of a
+    # wide or tall torus still names the link between them
+    if w >= 3 and h >= 3:
+        from rig.links import Links
+        for _ in range(40):
+            x = rng.choice([0, w - 1, rng.randrange(w)])
+            y = rng.choice([0, h - 1, rng.randrange(h)])
+            for l, (dx, dy) in enumerate(VEC):
+                nx, ny = (x + dx) % w, (y + dy) % h
+                got = Links.from_vector((nx - x, ny - y))
+                ctx.hit("from_vector_wrapped_large")
+                check(int(got) == l, "from-vector-wrapped",
+                      "delta %r on %dx%d gave %r want link %d" %
+                      ((nx - x, ny - y), w, h, got, l))
+                check(int(Links.from_vector((x - nx, y - ny))) == (l + 3) % 6,
+                      "from-vector-wrapped", "reverse delta %r on %dx%d" %
+                      ((x - nx, y - ny), w, h))
     ctx.mark_nontrivial()
     return "ok"
 
